@@ -106,14 +106,16 @@ Section Reg.
   | ORetain (kd : kind) (p : key -> sid -> bool)
   | OClear
   | OVisit (kd : kind)
-  | OHandles (kd : kind).
+  | OHandles (kd : kind)
+  | OGetOrCreateP (kd : kind) (key0 : key).   (* get_or_create_<kind>(key0, op) whose closure `op` PANICS *)
 
   Inductive res :=
   | RSid (s : sid)                 (* get_or_create: the storage op ran on *)
   | ROpt (o : option sid)          (* get *)
   | RBool (b : bool)               (* delete *)
   | RUnit                          (* retain, clear *)
-  | RList (l : list entry).        (* visit: entries in visiting order; handles: the collected map *)
+  | RList (l : list entry)         (* visit: entries in visiting order; handles: the collected map *)
+  | RPanicked (s : sid).           (* get_or_create: op ran on storage s and panicked (the call unwound) *)
 
   Inductive pc :=
   | Start
@@ -191,6 +193,23 @@ Section Reg.
             | Some (kd', i) => let acc' := acc ++ get_shard r kd' i in sweep_next r l (OHandles kd) j acc' (RList (collect acc'))
             | None => Some (r, finish l (RList (collect acc)))
             end
+        | OGetOrCreateP kd key0 :: _ =>
+            (* the caller's closure panics once the registry has handed it the storage.  Read-hit path: op(v) runs
+               under the read guard, which is dropped while unwinding (a read guard never poisons).  Write paths:
+               the entry has ALREADY been inserted by or_insert_with when op(v) runs; the write guard is dropped
+               while unwinding and the shard's RwLock becomes poisoned.  Every accessor takes its locks with
+               unwrap_or_else(PoisonError::into_inner), so a poisoned lock behaves like a healthy one: poisoning is
+               not part of the state, and the call changes the registry exactly as a returning call does. *)
+            let h := hash key0 in let i := shard_ix h in
+            match find (matches h key0) (get_shard r kd i) with
+            | Some e => Some (add_log r [EvRet kd key0 (snd e)], finish l (RPanicked (snd e)))
+            | None =>
+                match j with
+                | O => Some (r, goto l 1 [])
+                | S _ => let s := next_sid r in
+                         Some (add_log (insert r kd i key0) [EvRet kd key0 s], finish l (RPanicked s))
+                end
+            end
         end
     end.
 
@@ -200,7 +219,7 @@ Section Reg.
     | Run j _ =>
         match todo l with
         | [] => 0
-        | OGetOrCreate _ _ :: _ => match j with O => 601 | S _ => 602 end
+        | OGetOrCreate _ _ :: _ | OGetOrCreateP _ _ :: _ => match j with O => 601 | S _ => 602 end
         | ODelete _ _ :: _ => 610
         | OGet _ _ :: _ => 611
         | ORetain _ _ :: _ => 612
